@@ -30,7 +30,9 @@ def obs_equal(kind, a, b):
     """model observations may carry fewer key=value tokens than the implementation's (same keys are compared)"""
     if a == b:
         return True
-    if kind in ("emit", "hist", "run") and a is not None and b is not None and "=" in b:
+    if kind == "argv" and b is not None and b.startswith("argv=no"):
+        return True                      # the word model does not cover this argument list
+    if kind in ("emit", "hist", "run", "orun", "fsh", "argv") and a is not None and b is not None and "=" in b:
         akeys = [t.split("=", 1)[0] for t in a.split(" ") if "=" in t]
         bkeys = [t.split("=", 1)[0] for t in b.split(" ") if "=" in t]
         at = [t for t in a.split(" ") if t.split("=", 1)[0] in bkeys and t.split("=", 1)[0] not in IGNORED_KEYS]
@@ -71,7 +73,7 @@ def compare(ctx, s, stage, signature_of, describe, nontrivial, oracle=None):
     signature_of(key, s) -> signature dict for a property failure on that case."""
     cases, impl, model, expect = s["cases"], s["impl"], s["model"], s["expect"]
     # "run" cases: the driver prints the reference semantics' verdict there (a specification, not a model of the code)
-    corr = [k for k in cases if k[0] != "run" and not obs_equal(k[0], impl.get(k), model.get(k))]
+    corr = [k for k in cases if k[0] not in ("run", "orun") and not obs_equal(k[0], impl.get(k), model.get(k))]
     if oracle is None:
         fails = [(k, "expected %s" % expect[k]) for k in expect if impl.get(k) != expect[k]]
         checked = len(expect)
@@ -426,6 +428,131 @@ def run_c07(ctx, ck):
         ctx.samples.append({"entry": k[1], "source": prog_source(s["cases"][k])[:300], "verdict": verdict_of_emit(s["impl"].get(k))})
 
 
+# ---------------------------------------------------------------- C08, C17, C18: what goes in must come out
+def toks(o):
+    return dict(t.split("=", 1) for t in (o or "").split(" ") if "=" in t)
+
+
+def orun_oracle(k, s):
+    """expectation (computed by the generator from the meaning of the program) and, where the reference
+    semantics is defined, its verdict -- both against the implementation's script under /bin/bash"""
+    if k[0] not in ("orun", "argv"):
+        return False
+    e = s["expect"].get(k)
+    if e is None:
+        return False
+    o, w = toks(s["impl"].get(k)), toks(e)
+    bad = [x for x in w if o.get(x) != w[x]]
+    if bad:
+        d = []
+        for x in bad[:3]:
+            try:
+                d.append("%s: expected %r, got %r" % (x, hexs(w[x])[:200] if x in ("out", "stderr") else w[x][:200], hexs(o.get(x, ""))[:200] if x in ("out", "stderr") else o.get(x, "")[:200]))
+            except Exception:
+                d.append("%s differs" % x)
+        return "; ".join(d)
+    if k[0] == "orun":
+        spec = s["model"].get(k) or ""
+        if spec.startswith("transpile=ok"):
+            st = toks(spec)
+            for x in ("out", "status", "files"):
+                if x in st and x in o and st[x] != o[x]:
+                    return "Bash run differs from the reference semantics on %s" % x
+    return None
+
+
+def describe_orun(k, s):
+    f = s["cases"][k].split(" ")
+    d = {"program": prog_source(s["cases"][k])[:1500]}
+    if len(f) > 3 and f[3] != "-":
+        d["stdin"] = hexs(f[3])
+    if len(f) > 4 and f[4] != "-":
+        d["files_before"] = {hexs(e.split(".")[0]): hexs(e.split(".")[1]) if "." in e else "" for e in f[4].split(",") if e}
+    return json.dumps(d)
+
+
+C08_LITERAL_CLASSES = ("quote", "dollar", "backquote", "backslash")
+C08_SUBST_PATHS = ("slice-store", "slice-literal", "range", "write")
+
+
+def sig_c08(k, s):
+    t = k[1].split("#", 1)
+    if len(t) < 2:
+        return {}
+    path, origin, cls = t[1].split("/")
+    if origin == "literal" and cls in C08_LITERAL_CLASSES:
+        return {"origin": "literal", "class": cls}
+    if cls == "newline-trailing" and (origin in ("file", "command") or path in C08_SUBST_PATHS):
+        return {"class": "newline-trailing", "through": "command-substitution"}
+    return {"path": path, "origin": origin, "class": cls}
+
+
+def run_dqwords(ctx, ck, n):
+    s = ck.run_stream(ctx, "dqwords", n)
+    # the model of double-quoted text against /bin/bash, wherever the model is defined
+    bad = [k for k in s["cases"] if (s["model"].get(k) or "").startswith("some:") and s["model"][k] != s["impl"].get(k)]
+    ctx.cov["bash_word_model_cases"] = len(s["cases"])
+    ctx.cov["bash_word_model_defined"] = sum(1 for k in s["cases"] if (s["model"].get(k) or "").startswith("some:"))
+    ctx.cov["evaluations"] = ctx.cov.get("evaluations", 0) + len(s["cases"])
+    if bad:
+        k = bad[0]
+        f = s["cases"][k].split(" ")
+        ctx.violation("the model of double-quoted text (coq/Sem/Words.v: dq) disagrees with /bin/bash on %d of %d words\nfirst: word %r env %s\nmodel %s\nbash %s\n"
+                      "the C08/C18 theorems are stated over this model, so they no longer speak about the shell that runs the scripts\n" % (
+                          len(bad), len(s["cases"]), hexs(f[1]) if f[1] != "-" else "", f[0], s["model"][k], s["impl"].get(k)), found_input=False)
+
+
+def run_c08(ctx, ck):
+    IGNORED_KEYS.update({"bashsyntax", "batchsyntax"})
+    run_dqwords(ctx, ck, 3000 if ctx.tier == "quick" else 40000)
+    s = ck.run_stream(ctx, "opaque", 2200 if ctx.tier == "quick" else 0)
+    compare(ctx, s, "opacity sweep: (character class x position) x 12 data paths x 4 origins, script bytes (model) and Bash run (expectation, reference semantics)",
+            sig_c08, describe_orun, lambda k, s: k[0] == "orun", oracle=orun_oracle)
+    ctx.cov["distribution"] = s["meta"]
+    ctx.cov["exhaustive"] = ctx.tier != "quick"
+    ks = [k for k in s["cases"] if k[0] == "orun"]
+    for k in ks[:: max(1, len(ks) // 3)][:3]:
+        ctx.samples.append({"case": k[1], "program": prog_source(s["cases"][k])[:300], "observed": decode_run(s["impl"].get(k))})
+
+
+def run_c17(ctx, ck):
+    IGNORED_KEYS.update({"bashsyntax", "batchsyntax"})
+    s = ck.run_stream(ctx, "fsops", 500 if ctx.tier == "quick" else 12000)
+    compare(ctx, s, "write/append/read/exists histories: script bytes (model), Bash run against the expectation, the reference semantics and the Bash-level model of the three operations",
+            sig_from_expect, describe_orun, lambda k, s: k[0] == "orun", oracle=orun_oracle)
+    ctx.cov["distribution"] = s["meta"]
+    ks = [k for k in s["cases"] if k[0] == "orun"]
+    for k in ks[:2]:
+        ctx.samples.append({"case": k[1], "program": prog_source(s["cases"][k])[:400], "observed": decode_run(s["impl"].get(k))})
+    # the contents also travel the C08 write path
+    s2 = ck.run_stream(ctx, "opaque", 600 if ctx.tier == "quick" else 0, seed_off=17)
+    sub = {k: v for k, v in s2["cases"].items() if "#write/" in k[1]}
+    s2 = dict(s2, cases=sub, expect={k: v for k, v in s2["expect"].items() if k in sub})
+    compare(ctx, s2, "every character class written to and read back from a file (the write path of the C08 sweep)", sig_c08, describe_orun,
+            lambda k, s: k[0] == "orun", oracle=orun_oracle)
+
+
+def sig_c18(k, s):
+    t = k[1].split("#", 1)
+    if len(t) < 2:
+        return {}
+    p = t[1].split("/")
+    return {"origin": p[0], "class": p[1]}
+
+
+def run_c18(ctx, ck):
+    IGNORED_KEYS.update({"bashsyntax", "batchsyntax"})
+    run_dqwords(ctx, ck, 1500 if ctx.tier == "quick" else 20000)
+    s = ck.run_stream(ctx, "appcalls", 900 if ctx.tier == "quick" else 25000)
+    compare(ctx, s, "probe calls: 0..5 arguments (one special), pipelines 1..3, exit statuses, captured or not: script bytes (model), argument vector (word model) and Bash run (expectation)",
+            sig_c18, describe_orun, lambda k, s: k[0] == "orun", oracle=orun_oracle)
+    ctx.cov["distribution"] = s["meta"]
+    ctx.cov["argv_model_defined"] = sum(1 for k in s["cases"] if k[0] == "argv" and not (s["model"].get(k) or "").startswith("argv=no"))
+    ks = [k for k in s["cases"] if k[0] == "orun"]
+    for k in ks[:2]:
+        ctx.samples.append({"case": k[1], "program": prog_source(s["cases"][k])[:300], "observed": decode_run(s["impl"].get(k))})
+
+
 # ---------------------------------------------------------------- C14
 def run_c14(ctx, ck):
     n = 40 if ctx.tier == "quick" else 1500
@@ -464,6 +591,25 @@ SEM_TRUST = ["coq/Sem/Src.v is the specification of program meaning (validated o
              "the generator's notion of 'defined behaviour' (harness/proggen.go) bounds what is explored"]
 
 PROPS = {
+    "C08": {"run": run_c08,
+            "rule": "quick: every (data path, origin, character class) triple with at least one content (2200 programs); thorough: the whole sweep "
+                    "(97 characters x 4 positions + 55 special strings) x 12 paths x 4 origins = 21228 programs, each executed under /bin/bash with a canary "
+                    "file that only executed data could create; plus random double-quoted words against the Bash word model",
+            "trusted": ["Sem/Words.v dq is a model of Bash's double-quote expansion (validated on every run by the dqwords stream)",
+                        "the expected output of a sweep program is computed by the generator (harness/opaquestream.go)"],
+            "assumptions": ["printable ASCII plus newline and tab; NUL and bytes above 127 are not generated"]},
+    "C17": {"run": run_c17,
+            "rule": "random histories (3-10 operations + final exists of every path) over 2-3 paths and 3-4 contents, one special path or content per case, "
+                    "half of them inside a function, values arriving through standard input or as literals; plus the write path of the C08 sweep",
+            "trusted": ["Sem/FsSem.v sh_step is a model of printf/cat/test on files (validated on every run: fsh cases)",
+                        "expected outputs are computed by the generator's own line store"],
+            "assumptions": ["directories of the paths exist; no concurrent writers"]},
+    "C18": {"run": run_c18,
+            "rule": "random probe invocations: 0-5 arguments of which one is drawn from the C08 contents (literal or computed), pipelines of length 1-3 "
+                    "through a line-wrapping filter, exit statuses 0,1,2,7,42,127,200,255 on the last command, captured or direct, top level or in a function",
+            "trusted": ["Sem/AppArgs.v arg_words is a model of Bash's handling of one rendered argument (validated on every run: argv cases)",
+                        "the probe and filter programs (harness/opaquestream.go)"],
+            "assumptions": ["Batch half (_ach helper) is covered only by script-byte correspondence with the model"]},
     "C07": {"run": run_c07,
             "rule": "EXHAUSTIVE table (tools/c07table.py): 96 single-file programs pairing a definition site with a use site over sibling/nested blocks, loop headers, "
                     "function boundaries, every placement of break/continue/return/func, redefinitions, call-before-definition, plus 9 import-boundary programs; "
